@@ -79,14 +79,15 @@ class PPIfHarness(Harness):
     prove_timeout_ms = 30000
     mode = "c26"
 
-    def __init__(self, directive, expr):
+    def __init__(self, directive, expr, W=None):
         self.directive = directive
         self.expr = expr
         self.lits = csem.literals(expr)
         self.text = csem.render(expr, lambda i, s: f"L{i}{s}")
-        self.name = f"{self.mode}.{directive}[{self.text}] ops=,{','.join(optags(expr))},"
+        prefix = "c26" if self.mode == "c26" else "c28.pp"
+        self.name = f"{prefix}.{directive}[{self.text}] ops=,{','.join(optags(expr))},"
         self.params = dict(directive=directive, expr=expr)
-        self.W = 80 + 64 * self.text.count("*") + (SHIFT_COUNT_MAX + 1) * self.text.count("<<")
+        self.W = W or (80 + 64 * self.text.count("*") + (SHIFT_COUNT_MAX + 1) * self.text.count("<<"))
         self.shiftlits = csem.shift_count_literals(expr)
 
     def inputs(self, mk):
